@@ -310,10 +310,12 @@ class SpaceEval(object):
             return self.ev(e.operand, env) if isinstance(
                 e.op, (ast.USub, ast.UAdd)) else UNK
         if isinstance(e, ast.Compare):
-            l = self.ev(e.left, env)
-            for c in e.comparators:
-                self.ev(c, env)
-            return V('arr', l.space) if l.kind == 'arr' else UNK
+            vals = [self.ev(e.left, env)] + [self.ev(c, env)
+                                             for c in e.comparators]
+            arrs = [v for v in vals if v.kind == 'arr']
+            if arrs and all(a.space == arrs[0].space for a in arrs):
+                return V('arr', arrs[0].space)
+            return UNK
         if isinstance(e, ast.Call):
             return self.call(e, env)
         if isinstance(e, ast.IfExp):
